@@ -85,7 +85,7 @@ func executeStall(t *testing.T, prop string, seed uint64, p *StallPlan) *core.Re
 			start := time.Now()
 			var conn *ech.Conn
 			var nerr error
-			pk, m, s := core.Guard(func() { conn, nerr = ech.NewConn(ctx, fc, ech.WithKeys(b.keys)) })
+			pk, m, s := core.Guard(func() { conn, nerr = ech.NewConn(ctx, fc, keyOptions(b.keys)...) })
 			el := time.Since(start)
 			cancel()
 			hint := func() {
@@ -356,7 +356,7 @@ func executeHostile(t *testing.T, prop string, seed uint64, p *HostilePlan) *cor
 	var outcome string
 	zero, consumedAtZero := 0, -1
 	pk, msg, site := core.Guard(func() {
-		conn, err := ech.NewConn(context.Background(), sc, ech.WithKeys(keys))
+		conn, err := ech.NewConn(context.Background(), sc, keyOptions(keys)...)
 		calls++
 		if err != nil {
 			outcome = "newconn-error"
